@@ -280,7 +280,10 @@ impl Suite for ColBuf {
             let style = r.below(3);
             let pattern = *r.pick(&NULL_PATTERNS);
             let sel = r.below(100);
-            let (class, cells): (String, Vec<Option<V>>) = if sel < 40 {
+            let big_dict = i % 800 == 799 && i < 4000;
+            let (class, cells): (String, Vec<Option<V>>) = if big_dict {
+                ("str/dict-65536/none/oracle-only".to_string(), gen_typed_cells(&mut r, "str", "dict-65536", 1, "none"))
+            } else if sel < 40 {
                 let c = *r.pick(&INT_CLASSES);
                 let n = pick_len(&mut r);
                 (format!("int/{}/{}", c, pattern), gen_typed_cells(&mut r, "int", c, n, pattern))
@@ -323,7 +326,11 @@ impl Suite for ColBuf {
             let sh = shape_of(&ops);
             let class = if sh.null_after_mixed { format!("{}/F4-shape", class) } else { class };
             let bs = *r.pick(&BATCH_SIZES);
-            cases.push(Case { class, input: Sx::l(vec![Sx::int(bs), ops_sx(&ops)]) });
+            let mut input = vec![Sx::int(bs), ops_sx(&ops)];
+            if big_dict {
+                input.push(Sx::a("oracle-only"));
+            }
+            cases.push(Case { class, input: Sx::l(input) });
         }
         cases
     }
@@ -333,6 +340,8 @@ impl Suite for ColBuf {
         let it = input.items();
         let batch_size = it[0].as_usize();
         let ops = parse_ops(&it[1]);
+        // columns beyond the size the list-based model can evaluate are checked by the oracle only
+        let with_model = it.len() < 3;
         let tbl = float_table(floats_of_ops(&ops).iter());
         let model_input = Sx::l(vec![tbl, it[1].clone()]);
         let exp = expected(&ops);
@@ -373,9 +382,9 @@ impl Suite for ColBuf {
         };
         match dump_column(built.column) {
             Ok(d) => outs.push(Outcome {
-                model: Some("col_build".into()),
-                model_input: Some(model_input.clone()),
-                impl_out: Some(d),
+                model: if with_model { Some("col_build".into()) } else { None },
+                model_input: if with_model { Some(model_input.clone()) } else { None },
+                impl_out: if with_model { Some(d) } else { Some(Sx::l(vec![Sx::a("ops"), d.items()[3].clone()])) },
                 oracle: len_oracle,
                 signature: len_sig,
                 nontrivial: nt,
@@ -400,9 +409,9 @@ impl Suite for ColBuf {
                 let diff = first_diff(&exp, &cells);
                 let sig = diff.as_ref().map(|_| format!("select-{}:{}:{}", diff_signature(&exp, &cells), sh.final_kind, shape_tag(&sh, batch_size)));
                 outs.push(Outcome {
-                    model: Some("col_cells".into()),
-                    model_input: Some(model_input),
-                    impl_out: Some(cells_sx(&cells)),
+                    model: if with_model { Some("col_cells".into()) } else { None },
+                    model_input: if with_model { Some(model_input) } else { None },
+                    impl_out: if with_model { Some(cells_sx(&cells)) } else { Some(Sx::l(vec![Sx::a("cells"), Sx::int(cells.len())])) },
                     oracle: diff.map(|d| format!("SELECT returned something else than was pushed: {}", d)),
                     signature: sig,
                     nontrivial: nt,
